@@ -175,6 +175,10 @@ fn callee_names(b: &Block) -> Vec<String> {
                 if p.path.segments.len() == 1 {
                     self.0.push(p.path.segments[0].ident.to_string());
                 }
+                // builder R: `super::f(..)` / `self::f(..)` — a module-level function named through its module
+                if p.path.segments.len() == 2 && ["super", "self", "crate"].contains(&p.path.segments[0].ident.to_string().as_str()) {
+                    self.0.push(p.path.segments[1].ident.to_string());
+                }
             }
             syn::visit::visit_expr_call(self, c);
         }
@@ -275,12 +279,13 @@ fn translate_unit(repo: &Path, u: &Unit, reg: &mut Registry) -> Res<String> {
     let mut out = String::new();
     writeln!(out, "-- GENERATED by /verif/tools/translate from /repo/{} — do not edit.", u.file).unwrap();
     writeln!(out, "import LoraVerif.Rt").unwrap();
+    // builder R: an import written `!Module` is imported but not opened (its names are used qualified)
     for i in &u.imports {
-        writeln!(out, "import {}", i).unwrap();
+        writeln!(out, "import {}", i.trim_start_matches('!')).unwrap();
     }
     writeln!(out, "set_option linter.unusedVariables false").unwrap();
     writeln!(out, "namespace {}", u.module).unwrap();
-    for i in &u.imports {
+    for i in u.imports.iter().filter(|i| !i.starts_with('!')) {
         writeln!(out, "open {}", i.trim_start_matches("LoraVerif.")).unwrap();
     }
     writeln!(out).unwrap();
@@ -292,7 +297,16 @@ fn translate_unit(repo: &Path, u: &Unit, reg: &mut Registry) -> Res<String> {
                 out.push('\n');
             }
             Sel::Alias(a, b) => {
-                let t = if let Some(i) = int_ty(b) { Ty::Int(i) } else { Ty::Named(b.to_string()) };
+                let t = if let Some(i) = int_ty(b) {
+                    Ty::Int(i)
+                } else if b.starts_with('[') || b.contains('<') {
+                    // builder R: the target is a type expression (`[Result<T, ()>]`)
+                    let ty: Type = syn::parse_str(b).map_err(|e| format!("Alias {}: {}", a, e))?;
+                    let tr = FnTr { reg, self_ty: None, ret: Ty::Unit, counter: 0, fn_prefix: String::new(), local_fns: HashMap::new(), extra_defs: vec![], muts: vec![], tparams: HashMap::new() };
+                    tr.ty(&ty)?
+                } else {
+                    Ty::Named(b.to_string())
+                };
                 reg.aliases.insert(a.to_string(), t);
             }
             Sel::Enum(name) => {
